@@ -29,7 +29,7 @@ import (
 // function, so a case stays a pure function of its draws.
 func TestC02Big(t *testing.T) {
 	rapid.Check(t, func(t *rapid.T) {
-		kind := rapid.SampledFrom([]string{"cmap12", "cmap4", "cmap-many-subtables", "name", "post", "kern", "kern-overlap", "gdef-order", "glyf", "hmtx",
+		kind := rapid.SampledFrom([]string{"cmap12", "cmap4", "cmap-many-subtables", "name", "post", "kern", "kern-overlap", "gdef-order", "count-zero", "glyf", "hmtx",
 			"cff-glyphs", "cff-fdselect", "cff-strings", "container", "coverage", "classdef"}).Draw(t, "kind")
 		scale := rapid.SampledFrom([]int{1, 2, 4, 8, 16, 32, 64}).Draw(t, "scale")
 		fs := &bigFiller{s: rapid.Uint64().Draw(t, "fill")}
@@ -211,6 +211,15 @@ func buildBig(t *rapid.T, kind string, scale int, fs *bigFiller) (string, []byte
 		// and the (empty) mark glyph sets table in front of them: every
 		// offset fits, in this order
 		return "gdef.Read", gdefSetsFirst(min(500*scale+fs.intn(100), 30000))
+	case "count-zero":
+		// counts that include the first glyph, with the invalid value 0, in
+		// thousands of four-byte records in front of 128 KiB of glyph ids
+		// (a reader that computes count-1 in 16 bits reads 65535 of them)
+		n := min(150*scale, 9000)
+		if fs.intn(2) == 0 {
+			return "gtab.Read/GSUB", zeroComponentLigatures(n)
+		}
+		return "gtab.Read/GSUB", zeroInputChainRules(n, 1+fs.intn(2))
 	case "glyf":
 		// thousands of small simple glyphs (and empty ones), long loca
 		n := min(4000*scale, 65535)
@@ -387,4 +396,64 @@ func overlappingKern(s, k, length int) []byte {
 		sub(0)
 	}
 	return b
+}
+
+// zeroComponentLigatures is a GSUB table with one ligature substitution
+// subtable: one ligature set of n ligatures (distinct records of four bytes)
+// whose component count is 0 - an invalid value; the count includes the
+// first glyph - followed by 128 KiB of glyph ids.
+func zeroComponentLigatures(n int) []byte {
+	s := []byte{0, 1}
+	s = be16(s, 8) // coverage
+	s = be16(s, 1) // one ligature set
+	s = be16(s, 14)
+	s = append(s, 0, 1, 0, 1, 0, 5) // coverage: glyph 5
+	set := be16(nil, n)
+	for i := 0; i < n; i++ {
+		set = be16(set, 2+2*n+4*i)
+	}
+	for i := 0; i < n; i++ {
+		set = append(set, 0, 7, 0, 0) // ligature glyph 7, componentCount 0
+	}
+	s = append(s, set...)
+	s = append(s, make([]byte, 2*65535)...)
+	return layoutWith(4, s)
+}
+
+// zeroInputChainRules is a GSUB table with one chained context subtable of
+// format 1 (glyphs) or 2 (classes): one rule set of n rules (distinct records
+// of four bytes: no backtrack, input glyph count 0 - invalid), followed by
+// 128 KiB of zeros.
+func zeroInputChainRules(n, format int) []byte {
+	var s []byte
+	setOff := 14
+	if format == 1 {
+		s = []byte{0, 1}
+		s = be16(s, 8) // coverage
+		s = be16(s, 1) // one rule set
+		s = be16(s, setOff)
+		s = append(s, 0, 1, 0, 1, 0, 5) // coverage: glyph 5
+	} else {
+		setOff = 30
+		s = []byte{0, 2}
+		s = be16(s, 16) // coverage
+		s = be16(s, 22) // backtrack, input, lookahead class definitions
+		s = be16(s, 22)
+		s = be16(s, 22)
+		s = be16(s, 2) // two class sets: NULL, one set
+		s = be16(s, 0)
+		s = be16(s, setOff)
+		s = append(s, 0, 1, 0, 1, 0, 5)       // coverage: glyph 5
+		s = append(s, 0, 1, 0, 5, 0, 1, 0, 1) // class definition: glyph 5 has class 1
+	}
+	set := be16(nil, n)
+	for i := 0; i < n; i++ {
+		set = be16(set, 2+2*n+4*i)
+	}
+	for i := 0; i < n; i++ {
+		set = append(set, 0, 0, 0, 0) // backtrackGlyphCount 0, inputGlyphCount 0
+	}
+	s = append(s, set...)
+	s = append(s, make([]byte, 2*65535+16)...)
+	return layoutWith(6, s)
 }
